@@ -211,7 +211,8 @@ def oneCallH (k : Nat) (h : Heap) (ws : List String) : Except String Heap := do
         | none => false) then
       bad s!"consumed-argument-not-freed-by-refused-call:{(consumedData c).filter (fun i => !(f.freed.getD []).contains i)}"
     else if (match f.query with | some (hits, scan) => hits != scan | none => false) then
-      bad s!"tree-query-differs-from-scan:{(f.query.getD (0, 0)).1}:{(f.query.getD (0, 0)).2}"
+      bad (if fname == "GEOSSTRtree_query_r" then s!"tree-query-differs-from-scan:{(f.query.getD (0, 0)).1}:{(f.query.getD (0, 0)).2}"
+           else s!"count-differs-from-recount:{(f.query.getD (0, 0)).1}:{(f.query.getD (0, 0)).2}")
     else
       match f.srid with
       | some (a, b) =>
